@@ -177,6 +177,9 @@ func parseRule(name string) rule {
 			r.nx = true
 		}
 	}
+	if strings.HasPrefix(labels[0], "mx") {
+		r.nx = true // a non-existent name directly under the apex
+	}
 	for _, f := range strings.Split(labels[0], "-") {
 		switch {
 		case f == "sn":
@@ -482,15 +485,46 @@ func (e *env) run(idx int, op *Op) (out outcome) {
 		out.Res = e.st.ServeMsg(op.Client, op.Proto, m)
 		out.Sent = true
 	}
-	if !e.st.Quiesce(10 * time.Second) {
+	if !e.settle() {
 		e.r.Inconclusive("pipeline did not quiesce after an exchange")
 	}
 	out.Seen = e.logSince(before)
 	return
 }
 
+// settle waits until nothing runs on behalf of the exchange: the stack is
+// quiescent AND no cache entry still holds a background-refresh claim (a
+// prefetch worker that has dequeued its item but not yet reached the stub is
+// invisible to Stack.Quiesce; the claim is released only when the refresh has
+// completed). A timeout is inconclusive, never a verdict.
+func (e *env) settle() bool {
+	deadline := time.Now().Add(15 * time.Second)
+	for {
+		if !e.st.Quiesce(10 * time.Second) {
+			return false
+		}
+		if e.pol.Prefetch == 0 {
+			return true
+		}
+		claimed := false
+		for _, d := range e.st.Cache().VerifStore().VerifDump() {
+			if d.Prefetch {
+				claimed = true
+				break
+			}
+		}
+		if !claimed {
+			return e.st.Quiesce(10 * time.Second)
+		}
+		if time.Now().After(deadline) {
+			return false
+		}
+		time.Sleep(200 * time.Microsecond)
+	}
+}
+
 func (e *env) advance(d time.Duration) {
-	if !e.st.Quiesce(10 * time.Second) {
+	if !e.settle() {
 		e.r.Inconclusive("pipeline did not quiesce before a clock advance")
 		return
 	}
@@ -564,6 +598,9 @@ func (e *env) judgeReply(idx int, op *Op, out *outcome) {
 	r.Count("reply_class_"+cls, 1)
 	if cls == "badvers" && len(e.identities(op)) > 0 {
 		r.Count("badvers_with_permitted_ecs", 1)
+	}
+	if cls == "badcookie" && carriesECS(op.Q) {
+		r.Count("badcookie_with_client_ecs", 1)
 	}
 	if opt := m.IsEdns0(); opt != nil {
 		for _, o := range opt.Option {
